@@ -109,6 +109,9 @@ def run(chk):
         try:
             specs = gen_specs(rng)
             ids = mh.build_ids(specs)
+            # every fourth scenario: the same runs as two experiments of one session (builds are per session, not per experiment)
+            mh.SPLIT_EXPERIMENTS = i % 4 == 1
+            chk.count("sessions_with_two_experiments", mh.SPLIT_EXPERIMENTS)
             failing = [b for b in ids if rng.random() < 0.25]
             oserr = [b for b in failing if rng.random() < 0.3]
             failing_rc = [b for b in failing if b not in oserr]
@@ -185,6 +188,7 @@ def run(chk):
             chk.count("sessions_noB", noB)
             chk.count("failing_builds", len(failing))
         finally:
+            mh.SPLIT_EXPERIMENTS = False
             shutil.rmtree(d, ignore_errors=True)
     sexprs, sobs = setup_only_part(chk)
     try:
